@@ -76,6 +76,32 @@ def main(tier):
             runs.append({'mode': 'dfs', 'depth': depth, 'maxslots': maxslots, 'seed_heap': seed, 'transitions': tr,
                          'states': st, 'revisits': rv, 'complete': complete})
 
+    # size sweep: every size up to 1200, then every multiple of 256 and its neighbours up to the bound, one short history each
+    top = 300000 if tier == 'quick' else 1200000
+    step = top // NCPU + 1
+    sjobs = [(lo, min(top, lo + step), sd) for sd in ((0, 1) if tier == 'quick' else (0, 1, 2, 3)) for lo in range(1, top, step)]
+
+    def sweep(j):
+        return j, run([h, 'sweep', str(j[0]), str(j[1]), str(j[2])], timeout=max(60, ck.deadline_s), norand=False)
+    nsizes = 0
+    for j, r in pmap(sweep, sjobs):
+        text = r.text()
+        for m in re.finditer(r'^VIOL kind=(\S+) seed=(\d+) maxslots=(\d+) ops=(\S*)$', text, re.M):
+            kind, sd, ms, ops = m.groups()
+            ck.report('kind=%s' % kind, 'size sweep: %s for size history %s (seed heap %s)' % (kind, ops, sd),
+                      files={'ops.txt': 'sweep size=%s seed=%s\n' % (ops.split(',')[0], sd)},
+                      cmds=['%s/bin/vcheck harness c10 sweep %s %d %s' % (VERIF, ops.split(',')[0], int(ops.split(',')[0]) + 1, sd)])
+        m = re.search(r'STAT mode=sweep seed=\d+ sizes=(\d+) bad=(\d+)', text)
+        if m:
+            nsizes += int(m.group(1))
+            tot['transitions'] += 7 * int(m.group(1))
+            tot['audits'] += 7 * int(m.group(1))
+        elif r.timeout:
+            ck.cut('sweep %s timed out' % (j,))
+        elif 'VIOL' not in text:
+            ck.report('kind=harness-exit-%s' % r.rc, 'sweep harness: %s' % text[-500:])
+    runs.append({'mode': 'sweep', 'sizes': nsizes, 'upto': top})
+
     def walk(j):
         steps, maxslots, seed = j
         return j, run([h, 'walk', str(steps), str(maxslots), str(seed)], timeout=max(60, ck.deadline_s), norand=False)
